@@ -16,8 +16,9 @@ Definition scf_c_local_endpoint : Z := 4.
 (* Sync: !Knows.. ; err != nil ; len(..) == 0 ;
    Pending = !Has(Reassembly) && (Has(Forward) || Has(Contraindicated) || Has(Dispatch)) ; updateErr != nil
    (scf_sync: si_fp || si_ci || si_dp; scf_purge: no constraint left => deleted) *)
-Definition scf_sync_ops : list Z := [1043; 44; 39; 34; 1043; 35; 35; 44].
-Definition scf_sync_lits : list Z := [0].
+(* after fix 8e09450 (properties stored together with the first push when constraints exist) *)
+Definition scf_sync_ops : list Z := [1043; 35; 44; 39; 44; 39; 34; 1043; 35; 35; 44].
+Definition scf_sync_lits : list Z := [0; 0].
 
 (* PurgeConstraints: c != LocalEndpoint *)
 Definition scf_purge_ops : list Z := [44].
